@@ -1,5 +1,7 @@
 pub mod common;
 pub mod c01;
+pub mod c03;
+pub mod parsing;
 pub mod c07;
 pub mod c11;
 pub mod c13;
@@ -11,12 +13,15 @@ use crate::engine::Monitor;
 pub fn all() -> Vec<Box<dyn Monitor>> {
     vec![
         Box::new(c01::C01),
+        Box::new(parsing::Parsing(parsing::PW::C02)),
+        Box::new(c03::C03),
         Box::new(manip::Manip(manip::Which::C04)),
         Box::new(manip::Manip(manip::Which::C05)),
         Box::new(manip::Manip(manip::Which::C06)),
         Box::new(c07::C07),
         Box::new(c11::C11),
         Box::new(c13::C13),
+        Box::new(parsing::Parsing(parsing::PW::C17)),
         Box::new(c18::C18),
     ]
 }
